@@ -319,14 +319,15 @@ def rule_p3(chk: Check, ci: ClassInfo) -> None:
 def rule_p4(chk: Check, ci: ClassInfo) -> None:
     chk.rule("P4", "exactly one percent-decoding (urllib.parse.unquote) on the def-use chain from request.path to the join with the root, before resolution")
     fi = ci.methods["handle"]
-    g = build_cfg(chk.proj, fi)
+    _PROJ[0] = chk.proj
+    g = Builder(chk.proj, inline_self_methods, 3).build(fi)  # the join may live in a helper
     defs = Defs(g)
     joins = []
     for n in g.nodes:
         if n.ast is None or n.kind != "stmt":
             continue
         for b in walk(n.ast):
-            if isinstance(b, ast.BinOp) and isinstance(b.op, ast.Div) and dotted(b.left) in ("self.document_root",):
+            if isinstance(b, ast.BinOp) and isinstance(b.op, ast.Div) and dotted(b.left) in ("self.document_root",) and not (isinstance(b.right, ast.Constant)):
                 joins.append((n, b.right))
             if isinstance(b, ast.Call) and method_call(b) and method_call(b)[1] == "joinpath" and dotted(method_call(b)[0]) == "self.document_root" and b.args:
                 joins.append((n, b.args[0]))
@@ -360,12 +361,24 @@ def _count_unquote(defs: Defs, node: Node, e: ast.AST, depth: int) -> int:
         for dn, val, sel in defs.at(node, e.id):
             if val is not None and sel is None:
                 best = max(best, _count_unquote(defs, dn, val, depth + 1))
+            elif val is not None and sel == "param" and dn.stack:
+                best = max(best, _count_unquote(defs, defs.g.nodes[dn.stack[-1]], val, depth + 1))
         return best
+    if isinstance(e, ast.Attribute) and isinstance(e.value, ast.Name):
+        # `request.path`: a property of the request class may already decode
+        from .common import request_accessor_decodes
+
+        k = request_accessor_decodes(defs.g.proj if hasattr(defs.g, "proj") else _PROJ[0], node.func, e)
+        if k:
+            return max(k, 0) if k > 0 else 2  # disagreeing returns count as "more than once"
     best = 0
     for ch in ast.iter_child_nodes(e):
         if isinstance(ch, ast.expr):
             best = max(best, _count_unquote(defs, node, ch, depth + 1))
     return best
+
+
+_PROJ: list = [None]
 
 
 def _shape(fn: ast.AST, root_attr: str) -> str:
